@@ -538,6 +538,19 @@ def jsonLeaf (rfc : Bool) (nilBytes : Bool) (tv : TV) : Except Fail (Option JTok
   | .llDouble => .ok (some (.scalar (.str (asciiBytes ("unexpected 16".toList)))))
   | .other n => .ok (some (.scalar (.str (asciiBytes ("unexpected ".toList ++ fmtNat n)))))
 
+/-- `json.MarshalIndent` fails (`UnsupportedValueError`) on the tree `BuildTree` made: a float
+    leaf-list (`[]float32`) with an infinite or NaN member.  (A scalar float is a `%f` string
+    under RFC 7951 and never fails.)  When this happens inside the proposal controller's
+    validation the error is returned to the controller framework, the reconcile is retried for
+    ever and the Set is never answered. -/
+def docBuildFails (tv : TV) : Bool :=
+  match tv.type with
+  | .llFloat =>
+    match tvLLFloat tv with
+    | .ok fs => fs.any fun f => f32Exp f == 255
+    | .error _ => false
+  | _ => false
+
 /-- the JSON token of a value a client set, in the document built with `jsonRFC7951 = true`
     (the only mode the code uses): the one the model plugin validates and the one Get returns in
     JSON encoding.  `stored`: the native value went through a store (protobuf), which leaves an
